@@ -914,8 +914,7 @@ def _evaluate(res, prop, config, req, out, hooks):
                 V.append(Violation(("C08",), "crash_lost", key,
                                    "injected %s but got a result: %s" % (
                                        "/".join(classes),
-                                       json.dumps(out.result.response())[:200]
-                                   )))
+                                       repr(out.result.data)[:200])))
             else:
                 V.append(Violation(("C08",), "crash_lost",
                                    (config, "other-exception"),
